@@ -588,6 +588,12 @@ def ctor_case(lab, mode, mask_bits, lookalike=False):
     given = [bool(mask_bits >> i & 1) for i in range(n)]
     if mode != "noobs":
         kw["observations"] = _ctor_obs(n)
+    if mode == "nomask-nan":
+        # observations given without a mask are all observed - whatever their values (a failed well stored as NaN included)
+        mode = "nomask"
+        for i in range(n):
+            if mask_bits >> i & 1:
+                kw["observations"][i] = float("nan")
     if mode == "mask":
         kw["observation_mask"] = np.array(given, dtype=bool)
     groups = {}
@@ -626,7 +632,8 @@ def ctor_case(lab, mode, mask_bits, lookalike=False):
 def run_ctor(item, col):
     for lab in item["labellings"]:
         n = len(lab)
-        for mode, masks, look in (("mask", range(1 << n), False), ("nomask", [0], False), ("noobs", [0], False), ("mask", range(1 << n), True)):
+        for mode, masks, look in (("mask", range(1 << n), False), ("nomask", [0], False), ("noobs", [0], False), ("mask", range(1 << n), True),
+                                  ("nomask-nan", range(1, 1 << n), False)):
             for m in masks:
                 bad, outcome, refused = ctor_case(lab, mode, m, lookalike=look)
                 col.evaluations += 1
@@ -666,6 +673,20 @@ def setobs_case(template, sel_bits, menu):
             raise
         bad.append(("C12|set_observed|raised", f"set_observed(selection {sel}, values {vals}) raised: {short_exc(exc)}"))
         return bad, ("setobs", "raised")
+    # the caller reuses its buffers afterwards (clears the selection, overwrites the values): the screen keeps what it was given
+    sel_buf, val_buf = np.array(sel, dtype=bool), np.array(vals, dtype=float)
+    s2 = copy.deepcopy(template)
+    try:
+        s2.set_observed(sel_buf, val_buf)
+        sel_buf[:] = False
+        val_buf[:] = -1.0
+        if fields(s2) != fields(s):
+            bad.append(("C12|set_observed|keeps-callers-buffers",
+                        f"set_observed(selection {sel}, values {vals}): after the caller cleared its selection / value arrays the screen changed "
+                        f"(mask {[bool(x) for x in s2.observation_mask]}, values {[float(x) for x in s2.observations]})"))
+    except Exception as exc:  # noqa: BLE001
+        if not exception_origin_in_repo(exc):
+            raise
     exp_obs = list(old_obs)
     it = iter(vals)
     for i in range(n):
